@@ -123,6 +123,33 @@ def Mgr.resolve (m : Mgr) (id : Nat) (w : Option Ep) : Mgr :=
   | (m', some (b, e)) => (m'.process b (some e)).1
   | (m', none) => m'
 
+/-- `pendingWlEpUpdates`: one entry per id, `none` = removal. -/
+abbrev Pending := GoMap Nat (Option Ep)
+
+/-- Every state `resolveWorkloadEndpoints` can end in when SEVERAL updates are pending, whatever order the
+Go map range yields them: at each step any pending entry may be the next one; a promotion does
+`pendingWlEpUpdates[best] = shadowed[best]`, OVERWRITING a pending entry for `best` if there is one. -/
+def Mgr.resolveAll : Nat → Mgr → Pending → List Mgr
+  | 0, m, _ => [m]
+  | _ + 1, m, [] => [m]
+  | fuel + 1, m, p :: ps =>
+    (p :: ps).flatMap (fun q =>
+      let r := m.process q.1 q.2
+      let pend := del (p :: ps) q.1
+      let pend := match r.2 with
+        | some (b, e) => set pend b (some e)
+        | none => pend
+      Mgr.resolveAll fuel r.1 pend)
+
+/-- `OnUpdate` for a batch of messages: later messages for the same id overwrite earlier ones. -/
+def mkPending (us : List (Nat × Option Ep)) : Pending :=
+  us.foldl (fun p u => set p u.1 u.2) []
+
+/-- All outcomes of one `CompleteDeferredWork` after the batch `us`. -/
+def Mgr.batch (m : Mgr) (us : List (Nat × Option Ep)) : List Mgr :=
+  let p := mkPending us
+  m.resolveAll (2 * p.length + 2) p
+
 inductive Op
   | update (id : Nat) (w : Ep)
   | remove (id : Nat)
@@ -136,20 +163,25 @@ def run (ops : List Op) : Mgr := ops.foldl Mgr.step Mgr.new
 
 /-! ### Specification -/
 
-/-- The live endpoints after a history: last update not followed by a removal. -/
-def live (ops : List Op) : GoMap Nat Ep :=
-  ops.foldl (fun l op => match op with
-    | .update id w => set l id w
-    | .remove id => del l id) []
+def liveStep (l : GoMap Nat Ep) : Op → GoMap Nat Ep
+  | .update id w => set l id w
+  | .remove id => del l id
 
-/-- The preferred endpoint for interface `name`: the smallest live id claiming it. -/
+/-- The live endpoints after a history: last update not followed by a removal. -/
+def live (ops : List Op) : GoMap Nat Ep := ops.foldl liveStep []
+
+/-- No live endpoint ever changes its interface name (starting from live endpoints `l`). -/
+def NoRenameFrom : GoMap Nat Ep → List Op → Prop
+  | _, [] => True
+  | l, .update id w :: r => (∀ e, get l id = some e → e.name = w.name) ∧ NoRenameFrom (set l id w) r
+  | l, .remove id :: r => NoRenameFrom (del l id) r
+
+def NoRename (ops : List Op) : Prop := NoRenameFrom [] ops
+
+/-- The preferred endpoint for interface `name`: the smallest live id claiming it (the same
+minimum scan as `bestShadowed`, over the live endpoints). -/
 def preferred (l : GoMap Nat Ep) (name : Nat) : Option (Nat × Ep) :=
-  l.foldl (fun best p =>
-    if p.2.name = name then
-      match best with
-      | none => some p
-      | some b => if p.1 < b.1 then some p else some b
-    else best) none
+  (bestShadowed l name).bind (fun i => (get l i).map (fun e => (i, e)))
 
 /-- What interface `name` must carry: chains of the preferred endpoint, routes iff it is admin up. -/
 def specChains (l : GoMap Nat Ep) (name : Nat) : Option Chains :=
